@@ -137,6 +137,15 @@ def thread_body(p, rng, shared, tid, kind):
     own = bind('tensorof T %d %s' % (len(shape), nested(shape, [rng.uniform(0.5, 1.5) for _ in range(prod(shape))])))
     z = bind('mul %s %s' % (own, U)); z = bind('add %s %s' % (z, own)); z = bind('tanh %s' % z)
     p.add('bp %s' % z); p.add('obs %s' % own)
+    # graphs in which the shared UNTRACKED tensor is itself an operand next to a private tracked one
+    for kind in ('elmax', 'elmin', 'concat', 'patch', 'sub'):
+        o2 = bind('tensorof T %d %s' % (len(shape), nested(shape, [rng.uniform(0.5, 1.5) for _ in range(prod(shape))])))
+        if kind == 'concat': z2 = bind('concat %s,%s,%s 0' % (o2, U, X))
+        elif kind == 'patch':
+            blk = bind('slice %s 0:1' % o2)
+            z2 = bind('patch %s 0:1 %s' % (U, blk))
+        else: z2 = bind('%s %s %s' % (kind, o2, U))
+        p.add('bp %s' % z2); p.add('obs %s' % o2)
     # random constructors concurrently (values are not compared in this mode, shapes are)
     r = bind('randu U 3,2 %s %s' % (f2b(0.0), f2b(1.0))); p.add('nelems %s' % r)
     r = bind('randn T 4 %s %s' % (f2b(0.0), f2b(1.0))); d = nm('d'); p.add('%s = shape %s' % (d, r))
